@@ -5,3 +5,16 @@
 (define-fun geo.rel ((s Real) (v Real)) Real (* s v))
 ; reflection of a control point about the pen
 (define-fun geo.reflect ((pen Real) (c Real)) Real (- (* 2.0 pen) c))
+; gradient spread over the reals: fractional part and triangle wave (0 at even integers, 1 at odd integers)
+(define-fun geo.frac ((y Real)) Real (- y (to_real (to_int y))))
+(define-fun geo.triangle ((y Real)) Real (ite (= (mod (to_int y) 2) 1) (- 1.0 (geo.frac y)) (geo.frac y)))
+(define-fun geo.abs1 ((y Real)) Real (ite (>= y 0.0) y (- y)))
+; the four spread modes: 0 none (outside -> -1), 1 pad, 2 reflect, 3 repeat
+(define-fun geo.clamp ((s Int) (x Real)) Real
+  (ite (and (<= 0.0 x) (<= x 1.0)) x
+  (ite (= s 1) (ite (< x 0.0) 0.0 1.0)
+  (ite (= s 2) (geo.triangle (geo.abs1 x))
+  (ite (= s 3) (geo.frac x)
+  (- 1.0))))))
+; linear interpolation of a channel, rounded down
+(define-fun geo.mix ((t Real) (c0 Real) (c1 Real)) Int (to_int (+ (* (- 1.0 t) c0) (* t c1))))
